@@ -101,7 +101,7 @@ def setup_worker(ctx):
 
 def cases(seed, tier):
     rng = rng_for(seed, 'C15')
-    out = []
+    out = [{'mode': 'repo-tests', 'tier': tier, 'seed': 0}]
     for r in range(40 if tier == 'quick' else 5000):
         k = int(rng.integers(2, 6))
         kinds = [str(x) for x in rng.choice(KINDS, size=k, replace=True)]
@@ -385,7 +385,29 @@ def _datasets(spec, ctx):
     ctx.nontriv('d|%d|%d' % (size, s))
 
 
+def _repo_tests(spec, ctx):
+    """The repository's own tests as a workload under the global-state contract.  Unit tests call methods on
+    mocks (no real seed, patched generators): only real model objects holding a seed are judged."""
+    from vmon import pytest_probe
+    res = pytest_probe.run_repo_tests(spec['tier'], 'c15')
+    if res is None:
+        ctx.note('repository tests under the RNG contract: nothing observed (not judged)')
+        return
+    judged = 0
+    for cls, seeded, same in res['rng_events']:
+        if 'Mock' in cls or not seeded:
+            continue
+        judged += 1
+        ctx.check(same, 'global-state-unchanged(repository tests)', 'C15:seeded-sample-changed-global-state' +
+                  (':on-raise' if cls.endswith(':raise') else ''), lambda: dict(sampler=cls, driven_by='repository test suite'))
+    ctx.note('repository tests under the RNG contract: seeded sample calls judged', judged)
+    if judged:
+        ctx.nontriv('repo-tests|%s' % spec['tier'])
+
+
 def run_case(spec, ctx):
     global _EVENTS
     _EVENTS = []
+    if spec['mode'] == 'repo-tests':
+        return _repo_tests(spec, ctx)
     return {'history': _history, 'unseeded': _unseeded, 'raises': _raises, 'datasets': _datasets}[spec['mode']](spec, ctx)
